@@ -515,7 +515,7 @@ func writeEvidence(c *checkCtx, id, tier string, seed int64, all []OblResult, di
 		"seed":        seed,
 		"level":       "proof",
 		"coverage":    cov,
-		"assumptions": c.prop.Assume,
+		"assumptions": assumptionsWith(c.prop.Assume, undecided),
 		"wall_s":      wall,
 		"violations":  violations,
 	}
@@ -649,4 +649,25 @@ func sweepFuncs(c *checkCtx, refs []pkgRef, writeBaseline bool, kinds map[string
 	}
 	wg.Wait()
 	return all
+}
+
+// assumptionsWith adds the standing caveat of modular verification: a discharged
+// obligation that lies after a loop or a call was discharged assuming that
+// loop's invariants / that callee's postconditions, including any that are
+// themselves undecided.
+func assumptionsWith(base []string, undecided []string) []string {
+	out := append([]string{}, base...)
+	var inv []string
+	for _, u := range undecided {
+		if strings.Contains(u, "#inv.") || strings.Contains(u, "#post:") || strings.Contains(u, "#pre:") {
+			inv = append(inv, u)
+		}
+	}
+	if len(inv) > 0 {
+		if len(inv) > 6 {
+			inv = append(inv[:6], fmt.Sprintf("... (%d in all, see undecided_not_claimed)", len(inv)))
+		}
+		out = append(out, "conditional: loop invariants, preconditions at call sites or postconditions that are undecided are still assumed where they are used (after the loop, after the call, in callers that inline the function); discharged obligations downstream hold under them: "+strings.Join(inv, " | "))
+	}
+	return out
 }
